@@ -547,8 +547,25 @@ fn define_inherent_impl(
     }
 }
 
+/// `ref`, `ref_get`, `ref_set`, `vec_*`, `array_get` and `array_set` are recognised by spelling all the way
+/// down to the Go back end, which expands every call of that name in place. A definition that takes one of
+/// these names would be compiled as if its calls were calls of the builtin operation.
+fn reject_builtin_operation_name(diagnostics: &mut Diagnostics, what: &str, name: &str) {
+    if hir::BuiltinId::from_name(name).is_some() {
+        diagnostics.push(Diagnostic::new(
+            Stage::Typer,
+            Severity::Error,
+            format!(
+                "{} {} cannot be defined: {} is a builtin operation",
+                what, name, name
+            ),
+        ));
+    }
+}
+
 fn define_function(env: &mut PackageTypeEnv, diagnostics: &mut Diagnostics, func: &hir::Fn) {
     let name = func.name.clone();
+    reject_builtin_operation_name(diagnostics, "function", &name);
     let tparam_names = type_param_name_set(&func.generics);
     let generics_tast: Vec<tast::TastIdent> = func
         .generics
@@ -647,6 +664,7 @@ fn define_extern_go(env: &mut PackageTypeEnv, diagnostics: &mut Diagnostics, ext
         params: params.clone(),
         ret_ty: Box::new(ret.clone()),
     };
+    reject_builtin_operation_name(diagnostics, "extern", &ext.goml_name.to_ident_name());
     let go_name = go_symbol_name(&ext.go_symbol);
     env.current_mut().register_extern_function(
         ext.goml_name.to_ident_name(),
